@@ -24,6 +24,7 @@ def first_paragraphs(readme, n=1200):
 
 def main():
     os.makedirs(OUT, exist_ok=True)
+    needs = json.load(open(os.path.join(OUT, 'needs.json'))) if os.path.exists(os.path.join(OUT, 'needs.json')) else {}
     kept = []
     for f in sorted(os.listdir(RES)):
         m = re.match(r'(C\d\d)_(\d)(?:\.[a-z]+)?\.json$', f)
@@ -52,7 +53,7 @@ def main():
         meta.update({
             'property': pid,
             'origin': 'written by an independent sub-agent that was given only the property text and a scratch worktree of the library',
-            'what_it_needs_to_manifest': meta.get('what_it_needs_to_manifest') or 'see README.md (written by the author of the change)',
+            'what_it_needs_to_manifest': needs.get('%s-m%s' % (pid, k)) or meta.get('what_it_needs_to_manifest') or 'see README.md (written by the author of the change)',
             'confirmation': {
                 'patch_applies_to_repo_head': True,
                 'demo_exit_status_without_change': d.get('demo_clean_rc'),
